@@ -218,3 +218,4 @@ MANIFEST = {
     'note': 'Trusted: the transcription of PuLP 2.9.0\'s CBC status mapping (faults are '
             'simulated, real time-outs/crashes are not provoked); the harness-owned clock.',
 }
+MANIFEST['text'] += (' ' + 'Limits include 0, 0.0 and 2.5; a sixth fault kind is Not Solved without the clock being advanced; 35% of the cases first do a fault-free solve and a round of getters on the same object; threads is drawn in {None, 1, 2, 4}; fault-free runs that exceed their limit are checked too.')
